@@ -396,8 +396,9 @@ class StmtMixin:
                     et = info.seqval.ty.elem
                     x = fresh(et, "cx")
                     guard = seq_contains_elem(lift(info.seqval), x)
-                    models.seq_member_facts(st, lift(info.seqval))  # so that xs[i] is known to be one of the elements
-                    models.seq_position_witness(st, lift(info.seqval), et.sort())  # .. and every element sits at a position
+                    if getattr(self.c, "comp_member_facts", True):
+                        models.seq_member_facts(st, lift(info.seqval))  # so that xs[i] is known to be one of the elements
+                        models.seq_position_witness(st, lift(info.seqval), et.sort())  # .. and every element sits at a position
                     item = Val(et, x)
                     kelem = et
                 else:
